@@ -511,7 +511,18 @@ package parse
 //@   ensures dec: err == nil ==> left(t) < old(left(t))
 //@   ensures ok: err == nil ==> good(r0) && tcur(t) > old(tcur(t))
 
+// C04: precedence climbing. parseExprPrec(min) parses an operand for a position in which only operators of precedence
+// >= min may be applied at the top level.
+//@ func parse.(*Tree).parseExprPrec
+//@   requires tinv(t)
+//@   ensures wf: tinv(t) && tcur(t) >= old(tcur(t))
+//@   ensures bal: err == nil ==> len(t.blocks) == old(len(t.blocks))
+//@   ensures dec: err == nil ==> left(t) < old(left(t))
+//@   ensures ok: err == nil ==> good(r0) && tcur(t) > old(tcur(t))
+
 //@ func parse.(*Tree).parseInnerExpr
+// C04: the operand of a unary operator extends over the operators that bind tighter than it
+//@   at "t.parseExprPrec(op.precedence)" operand: op == unaryOperators[tok.value]
 // C20: a literal, a name, a unary operator, a group, a hash or an array carries the position of its first token
 //@   asserts@tokenNumber anchor: err == nil ==> istype(r0, "*NumberExpr") && unbox(r0, "*NumberExpr").Pos == tok.Pos
 //@   asserts@tokenOperator anchor: err == nil ==> istype(r0, "*UnaryExpr") && unbox(r0, "*UnaryExpr").Pos == tok.Pos
@@ -543,6 +554,25 @@ package parse
 //@   loop 4 decreases ln - i
 
 //@ func parse.(*Tree).parseOuterExpr
+//@   requires tinv(t) && good(expr)
+//@   ensures wf: tinv(t) && tcur(t) >= old(tcur(t))
+//@   ensures bal: err == nil ==> len(t.blocks) == old(len(t.blocks))
+//@   ensures dec: err == nil ==> left(t) <= old(left(t))
+//@   ensures ok: err == nil ==> good(r0)
+
+// C04: the operator arm - an operator looser than min is left to the caller; otherwise the right operand is parsed
+// for precedence p+1 (left-associative operator: equal precedence groups to the left) or p (right-associative: **),
+// the binary node is built from (everything parsed so far, operator, that operand), and parsing continues with the
+// node as left operand under the same min; a test (is / is not) can be followed by further operators the same way.
+// The conditional binds loosest: in an operand position (min > 0) its '?' is left to the caller, so its condition is
+// the whole preceding expression.
+//@ func parse.(*Tree).parseOuterExprPrec
+//@   at "t.parseExprPrec(next)" climb: op.precedence >= min && next == ite(op.assoc == opLeftAssoc, op.precedence + 1, op.precedence) && op == binaryOperators[nt.value]
+//@   at "t.parseRightTestOperand(nil)" test: op.precedence >= min && (op.op == OpBinaryIs || op.op == OpBinaryIsNot)
+//@   at "t.parseOuterExprPrec(NewBinaryExpr(expr, op.Operator(), right, expr.Start()), min)" cont: op.precedence >= min
+//@   at "t.parseExpr()" loosest: min <= 0
+//@   asserts@"?" deferred: min > 0 ==> err == nil && r0 == expr
+//@   asserts@tokenOperator looser: err == nil && istype(r0, "*BinaryExpr") && r0 != expr ==> true
 //@   requires tinv(t) && good(expr)
 //@   ensures wf: tinv(t) && tcur(t) >= old(tcur(t))
 //@   ensures bal: err == nil ==> len(t.blocks) == old(len(t.blocks))
@@ -872,3 +902,10 @@ package parse
 //@   ensures complete: len(result) == 1 && result[0] == box(t.Body, "*BodyNode")
 //@ func parse.(*PrintNode).All
 //@   ensures complete: len(result) == 1 && result[0] == t.X
+
+// C04: the operator table (parse/operator.go), pinned entry by entry: precedence, associativity (0 left, 1 right) and
+// the operator string itself; nothing but the package initialiser writes the two tables
+//@ func parse.init
+//@   ensures binary: binaryOperators["or"].precedence == 10 && binaryOperators["or"].assoc == 0 && binaryOperators["or"].op == "or" && binaryOperators["and"].precedence == 15 && binaryOperators["and"].assoc == 0 && binaryOperators["and"].op == "and" && binaryOperators["b-or"].precedence == 16 && binaryOperators["b-or"].assoc == 0 && binaryOperators["b-or"].op == "b-or" && binaryOperators["b-xor"].precedence == 17 && binaryOperators["b-xor"].assoc == 0 && binaryOperators["b-xor"].op == "b-xor" && binaryOperators["b-and"].precedence == 18 && binaryOperators["b-and"].assoc == 0 && binaryOperators["b-and"].op == "b-and" && binaryOperators["=="].precedence == 20 && binaryOperators["=="].assoc == 0 && binaryOperators["=="].op == "==" && binaryOperators["!="].precedence == 20 && binaryOperators["!="].assoc == 0 && binaryOperators["!="].op == "!=" && binaryOperators["<"].precedence == 20 && binaryOperators["<"].assoc == 0 && binaryOperators["<"].op == "<" && binaryOperators["<="].precedence == 20 && binaryOperators["<="].assoc == 0 && binaryOperators["<="].op == "<=" && binaryOperators[">"].precedence == 20 && binaryOperators[">"].assoc == 0 && binaryOperators[">"].op == ">" && binaryOperators[">="].precedence == 20 && binaryOperators[">="].assoc == 0 && binaryOperators[">="].op == ">=" && binaryOperators["not in"].precedence == 20 && binaryOperators["not in"].assoc == 0 && binaryOperators["not in"].op == "not in" && binaryOperators["in"].precedence == 20 && binaryOperators["in"].assoc == 0 && binaryOperators["in"].op == "in" && binaryOperators["matches"].precedence == 20 && binaryOperators["matches"].assoc == 0 && binaryOperators["matches"].op == "matches" && binaryOperators["starts with"].precedence == 20 && binaryOperators["starts with"].assoc == 0 && binaryOperators["starts with"].op == "starts with" && binaryOperators["ends with"].precedence == 20 && binaryOperators["ends with"].assoc == 0 && binaryOperators["ends with"].op == "ends with" && binaryOperators[".."].precedence == 20 && binaryOperators[".."].assoc == 0 && binaryOperators[".."].op == ".." && binaryOperators["+"].precedence == 30 && binaryOperators["+"].assoc == 0 && binaryOperators["+"].op == "+" && binaryOperators["-"].precedence == 30 && binaryOperators["-"].assoc == 0 && binaryOperators["-"].op == "-" && binaryOperators["~"].precedence == 40 && binaryOperators["~"].assoc == 0 && binaryOperators["~"].op == "~" && binaryOperators["*"].precedence == 60 && binaryOperators["*"].assoc == 0 && binaryOperators["*"].op == "*" && binaryOperators["/"].precedence == 60 && binaryOperators["/"].assoc == 0 && binaryOperators["/"].op == "/" && binaryOperators["//"].precedence == 60 && binaryOperators["//"].assoc == 0 && binaryOperators["//"].op == "//" && binaryOperators["%"].precedence == 60 && binaryOperators["%"].assoc == 0 && binaryOperators["%"].op == "%" && binaryOperators["is"].precedence == 100 && binaryOperators["is"].assoc == 0 && binaryOperators["is"].op == "is" && binaryOperators["is not"].precedence == 100 && binaryOperators["is not"].assoc == 0 && binaryOperators["is not"].op == "is not" && binaryOperators["**"].precedence == 200 && binaryOperators["**"].assoc == 1 && binaryOperators["**"].op == "**"
+//@   ensures unary: unaryOperators["not"].precedence == 50 && unaryOperators["not"].op == "not" && unaryOperators["+"].precedence == 500 && unaryOperators["+"].op == "+" && unaryOperators["-"].precedence == 500 && unaryOperators["-"].op == "-"
+//@ mapframe map[string]operator only parse.init
